@@ -67,3 +67,39 @@ PROPS["C01"] = Meta(
          "non-trivial = some level has >= 2 groups and the run performed >= 1 M2L and >= 1 inter-leaf P2P; distinct by hash of the whole case",
     assumptions=COMMON_ASSUME,
 )
+
+
+def single_jobs(qcases, tcases, dims=(3, 2, 1, 4), qprocs=(5, 4, 3, 4), args=()):
+    jobs = []
+    for d, qp in zip(dims, qprocs):
+        scale = 0.5 if d == 4 else 1.0
+        jobs.append(Job("d%d" % d, single(d), quick=(qp, int(qcases * scale), 100), thorough=(16, int(tcases * scale), 100), args=args))
+    return jobs
+
+
+GEN_RULE = ("rapidcheck-generated FmmCase (dimension 1..4 as separate binaries, height, dyadic/generic box, 7 particle distributions incl. "
+            "faces/corners/coincident, block size 1..N+2/huge/automatic/environment, both grouping modes); distinct by hash of the whole case; ")
+
+PROPS["C02"] = Meta(single_jobs(400, 5000),
+    GEN_RULE + "oracle = argument checks inside the probe kernel on every call (leaf membership by the model, bit-identical data rows, child/offset "
+    "codes decoded by the documented conventions against the identity of the objects passed, level argument against the object's level, separation/adjacency, "
+    "non-empty lists); non-trivial = >= 2 working levels and an M2L call with >= 2 sources", COMMON_ASSUME)
+PROPS["C06"] = Meta(single_jobs(400, 5000),
+    GEN_RULE + "oracle = each index stored once, in the leaf the model computes from its position, data rows bit-identical, results/expansions zero, "
+    "byte snapshot of all symbolic buffers unchanged by execution; non-trivial = N >= 2 with a particle on a cell face or a non-unit box", COMMON_ASSUME)
+PROPS["C07"] = Meta(single_jobs(400, 5000),
+    GEN_RULE + "oracle = group/level invariants through the public accessors against the model's ancestor closure; non-trivial = >= 3 leaf groups", COMMON_ASSUME)
+PROPS["C08"] = Meta(single_jobs(300, 4000),
+    GEN_RULE + "plus a second grouping (block size, mode); oracle = equal multisets of elementary interactions (and equal to the model), equal cell and particle values; "
+    "non-trivial = the two groupings issue a different number of kernel calls", COMMON_ASSUME)
+PROPS["C12"] = Meta(single_jobs(300, 4000),
+    GEN_RULE + "plus a generated ordered partition of the operator flags into 1..6 execute() calls and an upper working level 0..H+1; oracle = per call: only requested "
+    "operators logged, none above the working level, only the outputs of the requested operators change (byte diff); at the end values equal the model and a single full run; "
+    "non-trivial = >= 3 calls on a tree of height >= 3", COMMON_ASSUME)
+PROPS["C16"] = Meta(single_jobs(200, 2500),
+    GEN_RULE + "queries = every index in [-2, 2^(Dim*l)+2] when that is <= 4096, else present indices +-1, generated indices and range ends; oracle = found iff the model has "
+    "the cell (definitional Morton index), returned position designates it, per-group accessors equal a linear scan; non-trivial = >= 3 leaf groups and an absent index queried "
+    "strictly between the first and last index of the level", COMMON_ASSUME)
+PROPS["C17"] = Meta(single_jobs(300, 4000),
+    GEN_RULE + "oracle = getAllParticlesData()[i] equals the input row of particle i and getAllParticlesRhs()[i] the result accumulated by particle i; "
+    "non-trivial = more particles than values per particle (where a transposition is visible)", COMMON_ASSUME)
